@@ -337,7 +337,8 @@ def run_pool_history(hist, tier):
             if e[0] == "msg":
                 _, b, var = e
                 kw = MSG_VARIANTS[var]
-                api.push(fakes.bat(b, ts=loop.wall_now(), **kw))
+                # battery 19's own clock lags 30 s behind local time (what counts is when a message is received)
+                api.push(fakes.bat(b, ts=loop.wall_now() - timedelta(seconds=30 if b == 19 else 0), **kw))
                 data[b] = kw
                 last_rx[b] = loop.time()
             elif e[0] == "working":
